@@ -15,7 +15,7 @@ from harness import core, codec
 
 RULE = ("pairs of documents x array modes {position, value} x AoH modes {position, dpos, value, key, deep}: "
         "(1) every ordered pair of documents of <= 3 nodes over scalars {null,true,0,1,'a'} / keys {a,b,1} "
-        "(each pair under 3 mode mixes chosen by a seeded rotation so that all 10 mixes are covered evenly; thorough: all 10), "
+        "(each pair under 2 mode mixes chosen by a seeded rotation so that all 10 mixes are covered evenly; thorough: all 10), "
         "(2) seeded random documents of <= 12 nodes over scalars {null,true,false,0,1,2,1.5,1.0,'a','ab',''} / keys "
         "{a,b,ab,'a.b','a b',1,-1}: identical copies, one derived from the other by 1-4 insert/delete/replace/reorder edits, "
         "unrelated pairs, record lists with identity keys (unique, duplicated, missing), type clashes, nulls, empty "
@@ -565,7 +565,10 @@ def run_cases(cases):
         case = {"l": lj, "r": rj, "arr": arr, "aoh": aoh}
         im = impl_report(lj, rj, arr, aoh)
         if "timeout" in im:
-            viol.append((size(lj) + size(rj), "timeout", "compare_to did not return within 10 s", case))
+            # a starved worker on a loaded machine is not a hang: ask again with a generous limit
+            im = impl_report(lj, rj, arr, aoh, limit_s=120.0)
+        if "timeout" in im:
+            viol.append((size(lj) + size(rj), "timeout", "compare_to did not return within 120 s", case))
             continue
         if "crash" in im:
             count("impl:crash")
@@ -622,6 +625,9 @@ def sync_cases(cases):
     n = 0
     for i, (xs, ys) in enumerate(cases):
         for w, how in enumerate(("value", "key")):
+            ex = ys if ys else xs
+            if how == "key" and not (ex and ex[0]["k"] == "map"):
+                continue        # the code reaches synchronize_lods_by_key only for an Array-of-Hashes
             n += 1
             case = {"sync": how, "xs": xs, "ys": ys}
             lhs = codec.json_to_ruamel({"k": "seq", "i": xs})
@@ -823,7 +829,7 @@ def build_jobs(chk, scale=1):
     tier = chk.tier
     jobs = [("diff", corpus_cases())]
     docs = small_docs(3)
-    per_pair = 3 if tier == "quick" else 10
+    per_pair = 2 if tier == "quick" else 10
     per_pair = min(10, per_pair * scale)
     small = []
     off = rng.randrange(10)
